@@ -450,7 +450,7 @@ func streamC47(h *H) {
 	if h.Shard == 0 {
 		c47New(h)
 	}
-	n := h.N(600, 20000)
+	n := h.N(600, 12000)
 	for i := 0; i < n; i++ {
 		if c47Stuck.Load() >= 3 {
 			// a call that never returns costs a 5 s timeout (and may leave a spinning goroutine
